@@ -39,6 +39,15 @@ STATUSES_MORE = [
 # stream object itself has close() is the kind ('iter' / 'iter-noclose'), so close() exists on the iterable only, on the iterator only,
 # on both, on neither.  A file-like object may be iterable as well, like real files (`also_iter`).
 SHAPES = [None, 'sep', 'sep_close', 'genmethod']
+# The LIFETIME of the stream object's attribute set (C05, after seed C05_17): when `close` (and `read`) can be looked up on the object
+# the application assigned to resp.stream.  None = fixed by the class.  'close_getattr_after_first_call' = a lazy proxy whose
+# __getattr__ resolves `close` only once the first read() / __next__ was entered (the resource is opened lazily);
+# 'close_bound_by_first_call' = the first call binds self.close; 'close_rebound_by_first_call' = the class has a close(), the first call
+# replaces it on the instance by another callable (the old one is then stale: Probe.stale_closed); 'close_removed_at_end' = the
+# instance's close is deleted when the stream hands out its end marker (it closed itself); 'read_rebound_by_first_call' = the first
+# read() replaces self.read (file-like kinds).  What counts for the statement is the close() the object HAS when the response ends.
+CLOSE_LIVES = ['close_getattr_after_first_call', 'close_bound_by_first_call', 'close_rebound_by_first_call', 'close_removed_at_end']
+LIVES = CLOSE_LIVES + ['read_rebound_by_first_call']
 METHODS = ['GET', 'GET', 'HEAD', 'HEAD', 'POST', 'PUT', 'DELETE', 'PATCH', 'OPTIONS']
 MEDIA = {'dict': {'k': 'v', 'é': 1}, 'empty-dict': {}, 'zero': 0, 'str': 'm', 'list': [1, 'a'],
          # the other "falsy" JSON documents (C06 draws them; gen_plan itself keeps its original pool)
@@ -173,10 +182,28 @@ class Probe:
         # for while more data is still to come (see gen_reader); sizes = the n of every read(n) call it received
         self.reader, self.pos, self.sizes = reader, 0, []
         self.data = reader_data(reader['size']) if reader else b''
+        # the lifetime of the stream object's attribute set (see LIVES): obj = the object assigned to resp.stream; on_enter runs when
+        # the stream's first read() / __next__ is entered ("the resource is opened"), on_end when it hands out its end marker;
+        # stale_closed counts calls of a close() that had been REPLACED by another callable by then
+        self.obj, self.on_enter, self.on_end, self.rebound, self.stale_closed = None, None, None, False, 0
+
+    def has_close_now(self):
+        return callable(getattr(self.obj, 'close', None))
+
+    def enter(self):
+        if self.on_enter is not None:
+            hook, self.on_enter = self.on_enter, None
+            hook()
+
+    def end(self):
+        if self.on_end is not None:
+            hook, self.on_end = self.on_end, None
+            hook()
 
     def step(self, n=None):
         i = self.calls
         self.calls += 1
+        self.enter()
         if self.fail == i:
             raise fault_class(self.fail_class)(f'stream fault at call {i}')
         if self.reader is not None:
@@ -207,6 +234,7 @@ async def _closed_async(probe):
 async def _before_call(probe):
     if probe.cancel_at == ['call', probe.calls]:
         probe.calls += 1
+        probe.enter()
         await cancelled_here()
 
 
@@ -241,6 +269,7 @@ async def _iter_closed_async(probe):
 def _next_sync(probe, file_like=False):
     c = probe.step()
     if c is None or (file_like and c == b''):
+        probe.end()
         raise StopIteration
     return c
 
@@ -249,26 +278,80 @@ async def _next_async(probe, file_like=False):
     await _before_call(probe)
     c = probe.step()
     if c is None or (file_like and (c is NONE or c == b'')):
+        probe.end()
         raise StopAsyncIteration
     # "async iterators must return None instead of raising StopIteration" (falcon.asgi.Response.stream)
     return None if c is NONE else c
 
 
-def make_stream(kind, probe, truth=None, shape=None, also_iter=False):
-    """shape (iterable kinds) / also_iter (file-like kinds): see SHAPES."""
+def _live(cls, kind, probe, life):
+    """Instantiate the stream class `cls` with the attribute lifetime `life` (see LIVES); kind: its (a)sync kind name."""
+    asyn = kind.startswith('a')
+    has_close = not kind.endswith('-noclose')
+    if asyn:
+        async def closer(self=None):
+            await _closed_async(probe)
+
+        async def stale(self):
+            if probe.rebound:
+                probe.stale_closed += 1
+            else:
+                await _closed_async(probe)
+    else:
+        def closer(self=None):
+            _closed_sync(probe)
+
+        def stale(self):
+            if probe.rebound:
+                probe.stale_closed += 1
+            else:
+                _closed_sync(probe)
+    if life not in CLOSE_LIVES:
+        if has_close:
+            cls.close = closer
+    elif life == 'close_getattr_after_first_call':
+        # a lazy proxy: everything but read() is delegated to the underlying resource, which exists from the first read() on
+        def __getattr__(self, name):
+            if name == 'close' and probe.calls > 0:
+                return closer
+            raise AttributeError(name)
+        cls.__getattr__ = __getattr__
+    elif life == 'close_rebound_by_first_call':
+        cls.close = stale
+    obj = cls()
+    if life == 'close_bound_by_first_call':
+        probe.on_enter = lambda: setattr(obj, 'close', closer)
+    elif life == 'close_rebound_by_first_call':
+        def rebind():
+            probe.rebound = True
+            obj.close = closer
+        probe.on_enter = rebind
+    elif life == 'close_removed_at_end':
+        obj.close = closer
+        probe.on_end = lambda: obj.__dict__.pop('close', None)
+    elif life == 'read_rebound_by_first_call':
+        # the first read() replaces the object's read by another callable (that of the resource it has just opened)
+        second = cls.read2
+        probe.on_enter = lambda: setattr(obj, 'read', second.__get__(obj))
+    return obj
+
+
+def make_stream(kind, probe, truth=None, shape=None, also_iter=False, life=None):
+    """shape (iterable kinds) / also_iter (file-like kinds): see SHAPES; life: see LIVES."""
     if kind in ('file', 'file-noclose'):
         class F:
             def read(self, n=-1):
                 c = probe.step(n)
+                if c is None or c == b'':
+                    probe.end()
                 return b'' if c is None else c
-        if kind == 'file':
-            F.close = lambda self: _closed_sync(probe)
+            read2 = read
         if also_iter:
             # like io.BufferedReader: a file-like object is iterable, too (the documentation makes read() the interface)
             F.__iter__ = lambda self: _iters(probe, self)
             F.__next__ = lambda self: _next_sync(probe, True)
         _truth(F, probe, truth)
-        return F()
+        return _live(F, kind, probe, life)
     if kind in ('iter', 'iter-noclose'):
         if shape in ('sep', 'sep_close'):
             class It:
@@ -290,6 +373,7 @@ def make_stream(kind, probe, truth=None, shape=None, also_iter=False):
                     while True:
                         c = probe.step()
                         if c is None:
+                            probe.end()
                             return
                         yield c
         else:
@@ -299,10 +383,8 @@ def make_stream(kind, probe, truth=None, shape=None, also_iter=False):
 
                 def __next__(self):
                     return _next_sync(probe)
-        if kind == 'iter':
-            I.close = lambda self: _closed_sync(probe)
         _truth(I, probe, truth)
-        return I()
+        return _live(I, kind, probe, life)
     if kind == 'gen':
         def g():
             try:
@@ -321,18 +403,17 @@ def make_stream(kind, probe, truth=None, shape=None, also_iter=False):
                 c = probe.step(n)
                 if c is NONE:
                     return None
+                if c is None or c == b'':
+                    probe.end()
                 return b'' if c is None else c
-        if kind == 'afile':
-            async def close(self):
-                await _closed_async(probe)
-            AF.close = close
+            read2 = read
         if also_iter:
             async def anext_(self):
                 return await _next_async(probe, True)
             AF.__aiter__ = lambda self: _iters(probe, self)
             AF.__anext__ = anext_
         _truth(AF, probe, truth)
-        return AF()
+        return _live(AF, kind, probe, life)
     if kind in ('aiter', 'aiter-noclose'):
         if shape in ('sep', 'sep_close'):
             class AIt:
@@ -357,6 +438,7 @@ def make_stream(kind, probe, truth=None, shape=None, also_iter=False):
                         await _before_call(probe)
                         c = probe.step()
                         if c is None:
+                            probe.end()
                             return
                         # "one can simply yield None" to end the body (falcon.asgi.Response.stream)
                         yield None if c is NONE else c
@@ -367,12 +449,8 @@ def make_stream(kind, probe, truth=None, shape=None, also_iter=False):
 
                 async def __anext__(self):
                     return await _next_async(probe)
-        if kind == 'aiter':
-            async def close(self):
-                await _closed_async(probe)
-            AI.close = close
         _truth(AI, probe, truth)
-        return AI()
+        return _live(AI, kind, probe, life)
     if kind == 'agen':
         async def ag():
             try:
@@ -499,6 +577,21 @@ def gen_shape(rnd, st):
         st['shape'] = rnd.choice(SHAPES[1:])
     elif st['kind'] in ('file', 'file-noclose') and rnd.random() < 0.3:
         st['also_iter'] = True
+    if st['kind'] in ('file', 'iter') and rnd.random() < 0.3:
+        st['life'] = rnd.choice(CLOSE_LIVES)
+    elif st['kind'] in ('file', 'file-noclose') and rnd.random() < 0.15:
+        st['life'] = 'read_rebound_by_first_call'
+
+
+def has_close_end(p, probe):
+    """whether the object assigned to resp.stream has a callable close() NOW (asked when the response has ended): by its kind, or -
+    an object whose attribute set changes over its lifetime (LIVES) - by looking at the object"""
+    st = p['stream']
+    if st is None:
+        return False
+    if st.get('life') in CLOSE_LIVES and probe is not None and probe.obj is not None:
+        return probe.has_close_now()
+    return st['kind'] in ('file', 'iter')
 
 
 def declared_length(st):
@@ -767,7 +860,8 @@ def fill(resp, p, asgi, snapshot=None):
         probe = Probe(stream_items(p, asgi), st['fail'], st.get('reader'), st.get('fail_class'), st.get('close_class'),
                       st.get('cancel_at') if asgi else None)
         kind = st['kind']
-        stream = make_stream(ASYNC_OF[kind] if asgi else kind, probe, st.get('truth'), st.get('shape'), bool(st.get('also_iter')))
+        stream = make_stream(ASYNC_OF[kind] if asgi else kind, probe, st.get('truth'), st.get('shape'), bool(st.get('also_iter')), st.get('life'))
+        probe.obj = stream
         if st.get('declared') is not None:
             resp.set_stream(stream, st['declared'])
         else:
@@ -903,9 +997,9 @@ def fz_show(status, headers, chunks, err):
     return f"{status}|{';'.join(hs(k) + ':' + hs(v) for k, v in headers)}|{','.join(hx(c) for c in chunks)}|{1 if err else 0}"
 
 
-def fzt_line(p, snapshot, send_fail_at):
+def fzt_line(p, snapshot, send_fail_at, probe=None):
     """Line for fztdriver (FzTMain.lean): the fzdriver line + whether the stream object has close() + the failing send index."""
-    has_close = p['stream'] is not None and p['stream']['kind'] in ('file', 'iter')
+    has_close = has_close_end(p, probe)   # ASGI looks close up when streaming has ended
     return fz_line(p, snapshot, asgi_items=True) + f" close={1 if has_close else 0} xf={'-' if send_fail_at is None else send_fail_at}"
 
 
